@@ -217,7 +217,7 @@ pub fn main(args: &Args) -> i32 {
         return sweep::replay(args);
     }
     let mut ev = Evidence::new(args, "exploration");
-    let families = vec![Family { menu: Menu::General, k: args.tier.pick(3, 4) }, Family { menu: Menu::Args, k: args.tier.pick(2, 3) }, Family { menu: Menu::Abstract, k: args.tier.pick(3, 4) }, Family { menu: Menu::ClientArgs, k: args.tier.pick(2, 3) }];
+    let families = vec![Family { menu: Menu::General, k: args.tier.pick(3, 5) }, Family { menu: Menu::Args, k: args.tier.pick(2, 4) }, Family { menu: Menu::Abstract, k: args.tier.pick(3, 5) }, Family { menu: Menu::ClientArgs, k: args.tier.pick(2, 4) }];
     let res = sweep::run(args, families);
     let mut verdict = Verdict::new("C16");
     for v in res.violations {
